@@ -272,6 +272,14 @@ func runCompiledOp(t target, i int, c *compiled, inst int, obs observer) {
 	case "Print":
 		lentArgs("Print", c.args)
 		t.Print(c.args...)
+	case "PrintCast":
+		// a redactable the caller cast himself: marker-free bytes, possibly a
+		// chunk of an earlier output that starts or ends inside a character
+		if op.I%2 == 0 {
+			t.Print(redact.RedactableString(op.str(inst)))
+		} else {
+			t.Print(redact.RedactableBytes(op.str(inst)))
+		}
 	case "Printf":
 		lentArgs("Printf", c.args)
 		t.Printf(op.str(inst), c.args...)
